@@ -10,6 +10,7 @@ CONSTANTS
   FaultSites = {"core", "block", "inline", "inline2", "render", "highlight"}
   MaxCtx = 2
   MaxDepth = 6
+  ChainToggleChains = {"inline", "inline2"}
   Variant = "head"
 SPECIFICATION SpecP
 VIEW view
